@@ -6,6 +6,7 @@ import (
 	"fmt"
 	"math/rand"
 	"net/url"
+	"sort"
 	"strings"
 	"servitor/verifkit"
 	"servitor/verifsim"
@@ -63,6 +64,26 @@ func verifWorldJSON(w map[string]verifsim.Resp) verifkit.M {
 
 func verifRunSession(out *verifkit.Trace, rng *rand.Rand, sid int, s verifSessionIn) {
 	sim := verifsim.Get()
+	/* a non-https URL is, half of the time, the plain-http twin of an https URL of the same world (same host,
+	   port, path and query): nothing learnt about the one may leak to the other */
+	ids := make([]string, 0, len(s.World))
+	for id, r := range s.World {
+		if r.Status != -1 {
+			ids = append(ids, id)
+		}
+	}
+	sort.Strings(ids)
+	names := make([]string, 0, len(s.World))
+	for id := range s.World {
+		names = append(names, id)
+	}
+	sort.Strings(names)
+	for _, id := range names {
+		if r := s.World[id]; r.Status == -1 && r.Twin == "" && len(ids) > 0 && rng.Intn(2) == 0 {
+			r.Twin = ids[rng.Intn(len(ids))]
+			s.World[id] = r
+		}
+	}
 	w := &verifsim.World{Sim: sim, Routes: s.World}
 	w.Install(rng)
 	verifSetCache(s.Cap)
@@ -142,7 +163,7 @@ func verifRandomSession(rng *rand.Rand, long bool) verifSessionIn {
 		case x == 13:
 			r = verifsim.Resp{Status: []int{204, 400, 404, 410, 500, 503}[rng.Intn(6)], Ct: []string{"activity"}, Body: "obj"}
 		case x == 14:
-			r = verifsim.Resp{Status: 200, Ct: []string{[]string{"html", "bad"}[rng.Intn(2)]}, Body: "obj"}
+			r = verifsim.Resp{Status: 200, Ct: []string{[]string{"html", "bad", "wild"}[rng.Intn(3)]}, Body: "obj"}
 		case x == 15:
 			r = verifsim.Resp{Status: 200, Ct: []string{}, Body: "obj"}
 		case x == 16:
